@@ -184,6 +184,7 @@ Proof.
     intros scs h h' l HI Hsc H. cbn in H. inversion H; subst. split; auto using step_refl.
   - (* attribute :: attributes *)
     intros a IHa r IHr scs h h' l HI Hsc H. cbn in H.
+    destruct (existsb (N.eqb (aproto_name a)) (aproto_names r)); [eapply IHr; eauto|].
     destruct (deser_attr a scs h) as [[h1 x]|e] eqn:E1; [|discriminate].
     destruct (deser_attrs r scs h1) as [[h2 l2]|e] eqn:E2; [|discriminate]. inversion H; subst; clear H.
     pose proof (IHa _ _ _ _ HI Hsc E1) as N1. destruct N1 as (I1 & T1).
